@@ -1030,6 +1030,8 @@ impl ParserState {
         self.last_force_bytes_len = usize::MAX;
         self.lexer_stack_top_eos = false;
         self.rows_valid_end = self.num_rows();
+        // the cache key (lexer state, row index) can recur with different row contents
+        self.bias_cache = None;
 
         self.assert_definitive();
 
